@@ -2,6 +2,7 @@
    Statements quantify over EVERY request reader, response writer and handler (Section variables),
    every connection state and every number of loop iterations. *)
 From SV Require Import Base.Bytes Base.IO Model.Conn Spec.ConnSpec Proofs.ConnP Model.Server Proofs.ServerP.
+From SV Require Import Generated.SourceParams Tie.ConnTie.
 From SV Require Import Model.Response Model.ConnInst Proofs.ConnInstP.
 
 Section C04.
@@ -106,6 +107,11 @@ Theorem c04_instance_reader_progress :
     read_req_inst url_parse i = (inr x, i') -> (length (cin_avail i') + 4 <= length (cin_avail i))%nat.
 Proof. exact read_req_inst_progress. Qed.
 
+(* C04.src  the connection's head buffer length, re-read from src/http_conn.rs ON THIS RUN, is the
+   capacity the concrete instance of the connection machine uses *)
+Theorem c04_source_conn_buffer : ConnInst.cap8k = N.to_nat src_conn_buf_len.
+Proof. exact conn_buf_tie. Qed.
+
 Print Assumptions c04_handler_runs.
 Print Assumptions c04_instance_continue_code.
 Print Assumptions c04_instance_reader_total.
@@ -117,3 +123,4 @@ Print Assumptions c04_loop_stops_after_closing.
 Print Assumptions c04_loop_terminates.
 Print Assumptions c04_small_body_exact.
 Print Assumptions c04_double_run_refuted.
+Print Assumptions c04_source_conn_buffer.
